@@ -3,10 +3,6 @@ from tools import push, vlib
 
 
 
-KEY_PIPE = "pipeline/flat_map-over-fanout/poll_ready-after-finalize-Done"
-KEY_RESOLVE = "resolve_futures/start_send-after-poll_finalize-began"
-
-
 class C12(vlib.Spec):
     model_vo = ["theories/Push/Run.vo"]
     props_vo = "theories/Props/C12.vo"
@@ -15,12 +11,11 @@ class C12(vlib.Spec):
                 "C12_flat_map", "C12_flatten", "C12_flat_map_terminates", "C12_flatten_terminates",
                 "C12_inspect", "C12_unzip_fixed", "C12_fanout_fixed", "C12_fanout_fixed_terminates",
                 "C12_unzip_fixed_terminates", "C12_demux_fixed", "C12_demux_fixed_terminates",
-                "C12_compose_forwarding", "C12_compose_map", "C12_compose_filter", "C12_compose_flat_map",
-                "C12_compose_base", "C12_pipeline_map_flatmap_filter",
+                "C12_compose_base", "C12_compose_forwarding", "C12_compose_map", "C12_compose_filter",
+                "C12_compose_flat_map", "C12_compose_flatten",
                 "C12_stage_accumulate", "C12_stage_sort", "C12_stage_keyed", "C12_stage_persist",
-                "C12_stage_resolve_blocking", "C12_stage_fanout", "C12_stage_unzip", "C12_stage_for_each",
-                "C12_accumulate", "C12_pipeline_filter_fanout_fold", "C12_resolve_waker_refuted",
-                "C12_compose_flat_map_over_fanout_refuted"]
+                "C12_stage_resolve", "C12_stage_fanout", "C12_stage_unzip", "C12_stage_for_each",
+                "C12_accumulate", "C12_pipeline_map_flatmap_filter", "C12_pipeline_filter_fanout_fold"]
     crate, group, binary = "h_push", "light", "h_push"
     shrink_rounds = 20
     level = "proof"
@@ -48,13 +43,6 @@ class C12(vlib.Spec):
 
     def shrink(self, case):
         return push.shrink_push(case)
-
-    def finding_key(self, case, res):
-        if push.resolve_send_after_fin(case, res):
-            return KEY_RESOLVE
-        if push.pipe_ready_after_done(case, res):
-            return KEY_PIPE
-        return None
 
     def nontrivial(self, case, res):
         logs = res.get("logs", [])
